@@ -32,7 +32,7 @@ na = [{"property_id": p['id'], "reason": "check not built yet (work in progress)
 man = {
  "version": 1,
  "setup_cmd": "./check --build",
- "hooks": {"guard": "cadence_verif", "enable": "RUSTFLAGS=\"--cfg cadence_verif\" (rustc cfg flag; set by ./check for the harness build, which compiles /repo/cadence and /repo/cadence-macros from the working tree)",
+ "hooks": {"guard": "cadence_verif", "enable": "RUSTC_BOOTSTRAP=1 RUSTFLAGS=\"--cfg cadence_verif\" (rustc cfg flag; both set by ./check for the harness build, which compiles /repo/cadence and /repo/cadence-macros from the working tree; RUSTC_BOOTSTRAP lets the stable compiler accept the two feature gates the guarded Arc wrapper needs)",
            "baseline_off_cmd": "cd /repo && cargo test --workspace --no-fail-fast --offline",
            "source_commits": hook_commits, "add_only": True},
  "engines": list(ENGINES.values()),
